@@ -311,6 +311,7 @@ func (ex *Exec) inline(f *frame, st *State, callee *ssa.Function, cc *ssa.CallCo
 		}
 	}
 	entry := st.clone()
+	ex.initMarks(nf, entry)
 	ex.runBody(nf, entry, args)
 	// continue from callee's exit
 	st.heap = nf.exit.heap
@@ -349,7 +350,7 @@ func (ex *Exec) havocSet(st *State, mods map[string]bool) {
 	ex.advanceClock(st)
 	if mods["*"] {
 		for _, k := range sortedKeys(ex.V.compSorts) {
-			if k == compAlloc || strings.HasPrefix(k, "LK:") || (strings.HasPrefix(k, "LA:") || strings.HasPrefix(k, "LH:")) || strings.HasPrefix(k, "G:") {
+			if k == compAlloc || strings.HasPrefix(k, "LK:") || (strings.HasPrefix(k, "LA:") || strings.HasPrefix(k, "LH:")) || strings.HasPrefix(k, "G:") || strings.HasPrefix(k, "S:") {
 				continue
 			}
 			ex.havoc(st, k)
@@ -367,7 +368,7 @@ func (ex *Exec) havocSet(st *State, mods map[string]bool) {
 			cs, star := ex.V.contractComps(ct)
 			if star {
 				for _, c := range sortedKeys(ex.V.compSorts) {
-					if c == compAlloc || strings.HasPrefix(c, "LK:") || (strings.HasPrefix(c, "LA:") || strings.HasPrefix(c, "LH:")) || strings.HasPrefix(c, "G:") {
+					if c == compAlloc || strings.HasPrefix(c, "LK:") || (strings.HasPrefix(c, "LA:") || strings.HasPrefix(c, "LH:")) || strings.HasPrefix(c, "G:") || strings.HasPrefix(c, "S:") {
 						continue
 					}
 					ex.havoc(st, c)
